@@ -4,8 +4,8 @@
 //! ops (one line in, one line out):
 //!   enc <msg-spec>      -> hex of RtpsMessageWrite::new(header, submessages).buffer()
 //!   dec <hex>           -> `ok <rendering>` | `err:<kind>` of RtpsMessageRead::try_from
-//!   decfix <hex>, decxfix <hex> <msg-spec>, rtfix <msg-spec>
-//!                       -> same as dec / decx / rt (the model answers them with the decoder of fixes/D5.patch)
+//!   <op>@<letters>      -> same as <op>; the letters (5 = D5 fix, e = D-wire-3, a = D-wire-4, m = D-wire-2) tell the
+//!                          model which repairs the tree under test contains (no suffix = tree of the first delivery)
 //!   decx <hex> <msg-spec> -> same as dec; the spec (the message the bytes were made from) is carried for the oracle only
 //!   rt  <msg-spec>      -> `<hex> <dec output of that hex>`
 //!   sub <sub-spec>      -> hex of one submessage written alone (write_submessage_into_bytes_vec)
@@ -286,11 +286,17 @@ fn decode_s(bytes: &[u8]) -> String {
 }
 
 fn step(t: &[&str]) -> String {
-    match t {
-        ["enc", rest @ ..] => match encode(rest) { Ok(v) => hex(&v), Err(()) => "bad-op".into() },
-        ["rt", rest @ ..] | ["rtfix", rest @ ..] => match encode(rest) { Ok(v) => format!("{} {}", hex(&v), decode_s(&v)), Err(()) => "bad-op".into() },
-        ["sub", s] => match submessage(s) { Ok(sm) => hex(&write_submessage_into_bytes_vec(&*sm)), Err(()) => "bad-op".into() },
-        ["dec", h] | ["decfix", h] | ["decx", h, ..] | ["decxfix", h, ..] => match unhex(h) { Ok(v) => decode_s(&v), Err(()) => "bad-op".into() },
+    // `op@<letters>`: the letters tell the MODEL which repairs the tree under test contains; the real code is what it is
+    let Some((first, rest)) = t.split_first() else { return "bad-op".into() };
+    let mut parts = first.split('@');
+    let op = parts.next().unwrap_or("");
+    if let Some(l) = parts.next() { if !l.chars().all(|c| "5eam".contains(c)) { return "bad-op".into(); } }
+    if parts.next().is_some() { return "bad-op".into(); }
+    match (op, rest) {
+        ("enc", rest) => match encode(rest) { Ok(v) => hex(&v), Err(()) => "bad-op".into() },
+        ("rt", rest) => match encode(rest) { Ok(v) => format!("{} {}", hex(&v), decode_s(&v)), Err(()) => "bad-op".into() },
+        ("sub", [s]) => match submessage(s) { Ok(sm) => hex(&write_submessage_into_bytes_vec(&*sm)), Err(()) => "bad-op".into() },
+        ("dec", [h]) | ("decx", [h, ..]) => match unhex(h) { Ok(v) => decode_s(&v), Err(()) => "bad-op".into() },
         _ => "bad-op".into(),
     }
 }
